@@ -155,6 +155,10 @@ func genC17(r *Rng, tier string) []Case {
 			items = append(items, L(B(der), ocsp, blob()))
 		}
 		cs = append(cs, Case{"cc_write", items})
+		if k >= 1 && i%10 == 0 { // the first item again at a later position (the same object twice in the chain)
+			cs = append(cs, Case{"cc_write", append(append([]Sx{}, items...), items[0])})
+			cs = append(cs, Case{"cc_write", []Sx{items[0], items[0]}})
+		}
 		// the same chain through the library writer, then read back and mutated
 		w := ops["cc_write"](items)
 		if len(w.L) == 2 && w.L[0].IsSym("ok") {
